@@ -942,6 +942,35 @@ def run_hooked(case, res, P, feats, rng, n_steps):
                       {'mech': 'shared_cell_width'})
             res.count('shared_edge_cells_compared',
                       sum(1 for l_ in seen_w.values() if len(l_) == 2))
+        # the convection constants of the gap energy equation: for every
+        # gap cell and every assembly it touches, the contact length of that
+        # cell ON THAT ASSEMBLY's gap mesh (a corner cell between unlike
+        # assemblies has a different one for each)
+        cu = getattr(r.core, '_conv_util', {}).get('const') if hasattr(
+            r.core, '_conv_util') else None
+        if cu is not None and wp_all is not None:
+            adj_all = np.asarray(r.core._asm_sc_adj)
+            worst, wit, n_unlike = 0.0, None, 0
+            # (the no-flow model folds the conduction length 2/d_gap in)
+            fac = (2.0 / float(r.core.d_gap)) if r.core.model == 'no_flow' \
+                else 1.0
+            for sci in range(int(r.core.n_sc)):
+                asm_, loc_ = np.where(adj_all == sci + 1)
+                want = [float(wp_all[a_][l_]) * fac
+                        for a_, l_ in zip(asm_, loc_)]
+                got = [float(x) for x in cu[sci, :len(want)]]
+                if len(set(np.round(want, 12))) > 1:
+                    n_unlike += 1
+                for g_, w_ in zip(got, want):
+                    d_ = abs(g_ - w_) / max(abs(w_), 1e-300)
+                    if d_ > worst:
+                        worst, wit = d_, (sci, got, want)
+            res.close('H8_convection_constant_is_own_contact_length', worst,
+                      1.0, 1e-10, 'the convection constant of a gap cell '
+                      'towards one of its assemblies is not that assembly\'s '
+                      'contact length with the cell: %r' % (wit,),
+                      {'mech': 'conv_const'})
+            res.count('gap_cells_with_unlike_contact_lengths', n_unlike)
         # the contact length the core multiplies fluxes with, per gap cell
         # around each assembly, is the width of that cell of the gap mesh
         wp = r.core.gap_params.get('asm wp') if hasattr(
